@@ -1424,6 +1424,116 @@ Section Algebra.
     pose proof (recover_master_top R masters fuel T T2 t r m g WR WT OP M Nr IM Pm E2) as Pr.
     apply posed_iff in Pr. destruct Pr as [p2 L2]. exists p2. split; [assumption | apply A2; assumption].
   Qed.
+
+  (* ---------------------------------------------------------------- recover with a master list, nested rigs:
+     a chain of masters from a posed device up to a top-level rig gets that rig posed *)
+  Lemma path_up_app_inv R l1 : forall s l2 top, path_up R s (l1 ++ l2) top -> exists y, path_up R s l1 y /\ path_up R y l2 top.
+  Proof.
+    induction l1 as [|[r g] l1 IH]; intros s l2 top PU; cbn in PU.
+    - exists s. split; [constructor | assumption].
+    - inversion PU as [|? ? ? ? ? M PU']; subst. destruct (IH _ _ _ PU') as (y & P1 & P2).
+      exists y. split; [econstructor; eassumption | assumption].
+  Qed.
+
+  Lemma path_top_det R s l y : path_up R s l y -> forall y', path_up R s l y' -> y = y'.
+  Proof. induction 1; intros y' PU'; inversion PU'; subst; auto. Qed.
+
+  Lemma path_top_In R s l y : path_up R s l y -> In y (s :: map fst l).
+  Proof. induction 1 as [d|d r g l top M PU IH]; [left; reflexivity|]. cbn. destruct IH as [<-|I]; [right; left; reflexivity | right; right; assumption]. Qed.
+
+  Lemma path_split_below R s l1 y r g l2 : path_up R s l1 y -> In y (nodes_below s (l1 ++ (r, g) :: l2)).
+  Proof.
+    intros PU. unfold nodes_below. rewrite map_app. cbn [map fst].
+    change (s :: map fst l1 ++ r :: map fst l2) with ((s :: map fst l1) ++ r :: map fst l2).
+    rewrite removelast_app by discriminate. apply in_or_app. left. eapply path_top_In; eassumption.
+  Qed.
+
+  Definition moved_up R s (l : list (string * P)) T t : Prop :=
+    exists l1 y l2, l = l1 ++ l2 /\ l1 <> [] /\ path_up R s l1 y /\ posed T t y.
+
+  Lemma rjobs_master_chain R masters js : wf2 R -> one_parent R -> forall T T' t s l top,
+    run_jobs (run_recover_job (reverse_dict R) masters) js T = Some T' ->
+    (forall t0 s0, In (t0, s0) js -> mem s0 (reverse_dict R) = true) ->
+    path_up R s l top -> mem top (reverse_dict R) = false ->
+    (forall x, In x (nodes_below s l) -> is_master masters x = true) ->
+    (posed T t s /\ In (t, s) js /\ l <> []) \/ moved_up R s l T t ->
+    moved_up R s l T' t.
+  Proof.
+    intros WR OP. induction js as [|[t0 s0] js IH]; intros T T' t s l top; cbn [MRigs.run_jobs].
+    - intros [= <-] _ _ _ _ [(_ & [] & _)|H]; assumption.
+    - destruct (run_recover_job (reverse_dict R) masters (t0, s0) T) as [T1|] eqn:E1; [|discriminate].
+      intros E HJ PU NT HM D.
+      apply (IH T1 T' t s l top E); auto; [intros t1 s1 I1; apply (HJ t1 s1); right; assumption|].
+      (* what the job of a chain node y (with the rest of the chain above it) does *)
+      assert (UP : forall l1 y l2, l = l1 ++ l2 -> path_up R s l1 y -> (t, y) = (t0, s0) ->
+                   exists r g l2', l2 = (r, g) :: l2' /\ posed T1 t r).
+      { intros l1 y l2 El P1 X. inversion X; subst t0 s0. rewrite El in PU.
+        destruct (path_up_app_inv R l1 s l2 top PU) as (y' & P1' & P2).
+        assert (y' = y) by (symmetry; eapply path_top_det; eassumption). subst y'.
+        destruct l2 as [|[r g] l2'].
+        - inversion P2; subst. rewrite (HJ t top (or_introl eq_refl)) in NT. discriminate.
+        - inversion P2 as [|? ? ? ? ? M P2']; subst. exists r, g, l2'. split; [reflexivity|].
+          assert (IM : is_master masters y = true) by (apply HM; eapply path_split_below; eassumption).
+          destruct (rjob_effect _ _ _ _ _ _ E1) as (r0 & gi & p & ER & Lp & EFF).
+          destruct (rev_sound R y r0 gi WR ER) as (g0 & M0 & _).
+          assert (r0 = r) by (eapply OP; eassumption). subst r0. unfold posed.
+          destruct EFF as [[[C|C] H]|(_ & _ & H)]; rewrite H; [congruence | assumption | rewrite !eqb_refl; discriminate]. }
+      destruct D as [(Ps & I & NE)|(l1 & y & l2 & El & NE & P1 & Py)].
+      + destruct (eqb_spec (t, s) (t0, s0)) as [X|N].
+        * destruct (UP [] s l eq_refl (path_nil P R s) X) as (r & g & l2' & El & Pr).
+          right. exists [(r, g)], r, l2'. split; [assumption|]. split; [discriminate|]. split; [|assumption].
+          rewrite El in PU. inversion PU as [|? ? ? ? ? M PU']; subst.
+          econstructor; [eassumption | constructor].
+        * left. split; [eapply rjob_posed_other; eassumption|]. split; [|assumption].
+          destruct I as [X|I]; [congruence | assumption].
+      + right. destruct (eqb_spec (t, y) (t0, s0)) as [X|N].
+        * destruct (UP l1 y l2 El P1 X) as (r & g & l2' & El2 & Pr).
+          exists (l1 ++ [(r, g)]), r, l2'. split; [rewrite El, El2, <- app_assoc; reflexivity|].
+          split; [destruct l1; discriminate|]. split; [|assumption].
+          rewrite El, El2 in PU. destruct (path_up_app_inv R l1 s _ top PU) as (y' & P1' & P2).
+          assert (y' = y) by (symmetry; eapply path_top_det; eassumption). subst y'.
+          inversion P2 as [|? ? ? ? ? M P2']; subst. eapply path_up_snoc; eassumption.
+        * exists l1, y, l2. split; [assumption|]. split; [assumption|]. split; [assumption|].
+          eapply rjob_posed_other; eassumption.
+  Qed.
+
+  (* a chain of masters from a posed device s up to an unmounted rig: the rig is posed after enough iterations *)
+  Theorem recover_master_chain R masters : wf2 R -> one_parent R -> forall fuel T T' t s l top,
+    wf2 T -> recover_iter fuel (reverse_dict R) masters T = Some T' ->
+    path_up R s l top -> mem top (reverse_dict R) = false ->
+    (forall x, In x (nodes_below s l) -> is_master masters x = true) ->
+    posed T t s -> (List.length l <= fuel)%nat -> posed T' t top.
+  Proof.
+    intros WR OP. induction fuel as [|fuel IH]; intros T T' t s l top WT; cbn [MRigs.recover_iter].
+    - intros [= <-] PU _ _ Ps Len. destruct l; [|cbn in Len; lia]. inversion PU; subst. assumption.
+    - intros E PU NT HM Ps Len.
+      destruct l as [|[r1 g1] l'] eqn:El.
+      { inversion PU; subst. unfold posed.
+        rewrite (recover_nonmember_kept (reverse_dict R) masters top t NT (S fuel) T T' WT Ps); [exact Ps|].
+        cbn [MRigs.recover_iter]. exact E. }
+      rewrite <- El in *. assert (NE : l <> []) by (rewrite El; discriminate).
+      assert (Ms : mem s (reverse_dict R) = true).
+      { rewrite El in PU. inversion PU as [|? ? ? ? ? M PU']; subst. eapply rev_complete; eassumption. }
+      assert (I : In (t, s) (recover_jobs (reverse_dict R) T)) by (apply recover_jobs_In; auto).
+      destruct (recover_jobs (reverse_dict R) T) as [|j0 js] eqn:EJ; [destruct I|].
+      destruct (run_jobs (run_recover_job (reverse_dict R) masters) (j0 :: js) T) as [T1|] eqn:E1; [|discriminate].
+      rewrite <- EJ in *.
+      assert (W1 : wf2 T1) by (eapply rjobs_wf2; eassumption).
+      destruct (rjobs_master_chain R masters _ WR OP T T1 t s l top E1) as (l1 & y & l2 & El12 & NE1 & P1 & Py); auto.
+      { intros t0 s0 I0. apply recover_jobs_In in I0; tauto. }
+      (* continue from y with the rest of the chain *)
+      rewrite El12 in PU. destruct (path_up_app_inv R l1 s l2 top PU) as (y' & P1' & P2).
+      assert (y' = y) by (symmetry; eapply path_top_det; eassumption). subst y'.
+      apply (IH T1 T' t y l2 top W1 E P2 NT); auto.
+      + intros x Ix. apply HM. rewrite El12. clear - P1 Ix.
+        unfold nodes_below in *. rewrite map_app.
+        change (s :: map fst l1 ++ map fst l2) with ((s :: map fst l1) ++ map fst l2).
+        destruct l2 as [|e l2]; [cbn in Ix; destruct Ix|].
+        rewrite removelast_app by discriminate. apply in_or_app.
+        cbn [map] in Ix. change (removelast (y :: fst e :: map fst l2)) with (y :: removelast (fst e :: map fst l2)) in Ix.
+        destruct Ix as [<-|Ix]; [left; eapply path_top_In; eassumption | right; exact Ix].
+      + rewrite El12, app_length in Len. destruct l1; [congruence | cbn in Len; lia].
+  Qed.
 End Algebra.
 
 (* ================================================================== the instance: rigid transforms over Q
@@ -1717,4 +1827,204 @@ Proof.
   intros WR F r d g M. rewrite forallb_forall in F. apply (flat2_lookup2 _ _ _ _ WR) in M. specialize (F _ M).
   unfold nonzero in F. cbn [fst snd] in F. apply negb_true_iff in F. unfold MPose.valid. intros C.
   rewrite <- n2_r_eq in C. apply Qeq_bool_iff in C. congruence.
+Qed.
+
+(* ------------------------------------------------------------------ a consistent world always exists for the
+   classic input: trajectories that pose only top-level rigs and free sensors.  world_f follows the parents
+   upwards (n steps suffice for nesting depth n) and composes the mounting poses onto the entry of the root. *)
+Definition parent (R : rigsQ) (d : string) : option (string * pose) :=
+  match find (fun x : string * string * pose => Eqb.eqb (snd (fst x)) d) (flat2 R) with
+  | Some x => Some (fst (fst x), snd x)
+  | None => None
+  end.
+Definition base_pose (T : trajQ) (t : Z) (d : string) : pose :=
+  match lookup2 t d T with Some p => p | None => pid end.
+Fixpoint world_f (R : rigsQ) (T : trajQ) (n : nat) (t : Z) (d : string) : pose :=
+  match n with
+  | O => base_pose T t d
+  | S k => match parent R d with
+           | Some (r, g) => compose2 g (world_f R T k t r)
+           | None => base_pose T t d
+           end
+  end.
+
+Lemma parent_member (R : rigsQ) d r g : wf2 R -> parent R d = Some (r, g) -> member R r d g.
+Proof.
+  intros WR. unfold parent. destruct (find _ (flat2 R)) as [[[r' d'] g']|] eqn:F; [|discriminate].
+  apply find_some in F. destruct F as [I E]. cbn in E. apply eqb_true in E. subst d'. cbn. intros [= <- <-].
+  apply (flat2_lookup2 _ _ _ _ WR). assumption.
+Qed.
+
+Lemma member_parent (R : rigsQ) r d g : wf2 R -> one_parent R -> member R r d g -> parent R d = Some (r, g).
+Proof.
+  intros WR OP M. destruct (parent R d) as [[r' g']|] eqn:Pa.
+  - pose proof (parent_member R d r' g' WR Pa) as M'. assert (r' = r) by (eapply OP; eassumption). subst r'.
+    unfold member in *. congruence.
+  - exfalso. unfold parent in Pa. destruct (find _ (flat2 R)) eqn:F; [discriminate|].
+    apply (flat2_lookup2 _ _ _ _ WR) in M. pose proof (find_none _ _ F _ M) as C. cbn in C. rewrite Eqb.eqb_refl in C. discriminate.
+Qed.
+
+Lemma parent_unmounted (R : rigsQ) d : wf2 R -> mounted R d = false -> parent R d = None.
+Proof.
+  intros WR NM. destruct (parent R d) as [[r g]|] eqn:Pa; [|reflexivity]. exfalso.
+  assert (X : mounted R d = true) by (apply mounted_iff; [assumption|]; exists r, g; eapply parent_member; eassumption).
+  congruence.
+Qed.
+
+Lemma world_f_stable (R : rigsQ) T t : wf2 R -> forall k d,
+  (forall l top, path_up R d l top -> (List.length l <= k)%nat) -> world_f R T k t d = world_f R T (S k) t d.
+Proof.
+  intros WR. induction k as [|k IH]; intros d B.
+  - cbn. destruct (parent R d) as [[r g]|] eqn:Pa; [|reflexivity]. exfalso.
+    pose proof (parent_member R d r g WR Pa) as M.
+    specialize (B [(r, g)] r (path_cons pose R d r g [] r M (path_nil pose R r))). cbn in B. lia.
+  - cbn [world_f]. destruct (parent R d) as [[r g]|] eqn:Pa; [|reflexivity]. f_equal.
+    change (world_f R T k t r = world_f R T (S k) t r). apply IH. intros l top PU.
+    pose proof (parent_member R d r g WR Pa) as M.
+    specialize (B ((r, g) :: l) top (path_cons pose R d r g l top M PU)). cbn in B. lia.
+Qed.
+
+Theorem roots_consistent (R : rigsQ) (T : trajQ) n :
+  wf2 R -> one_parent R -> depth_le R n -> rigs_validQ R -> traj_validQ T ->
+  (forall t d, posed T t d -> mounted R d = false) -> consistent R (world_f R T n) T.
+Proof.
+  intros WR OP DL RV TV UM. split; [|split].
+  - intros t. assert (Vb : forall d, MPose.valid (base_pose T t d)).
+    { intros d. unfold base_pose. destruct (lookup2 t d T) as [p|] eqn:L; [eapply TV; eassumption|].
+      unfold MPose.valid, pid; cbn [pr]. apply n2_one_nonzero. }
+    clear DL. induction n as [|k IH]; intros d; cbn [world_f]; [apply Vb|].
+    destruct (parent R d) as [[r g]|] eqn:Pa; [|apply Vb].
+    apply rg_compose2_valid; [eapply RV; eapply parent_member; eassumption | apply IH].
+  - intros t r d g M. pose proof (member_parent R r d g WR OP M) as Pa.
+    destruct n as [|k].
+    + exfalso. specialize (DL r [] r (member_is_rig pose R r d g M) (path_nil pose R r)). cbn in DL. lia.
+    + assert (E1 : world_f R T (S k) t d = compose2 g (world_f R T k t r)) by (cbn [world_f]; rewrite Pa; reflexivity).
+      rewrite E1. rewrite (world_f_stable R T t WR k r); [reflexivity|].
+      intros l top PU. specialize (DL r l top (member_is_rig pose R r d g M) PU). lia.
+  - intros t d p L. assert (Pa : parent R d = None) by (apply parent_unmounted; [assumption|]; apply (UM t); unfold posed; congruence).
+    destruct n; cbn [world_f]; rewrite ?Pa; unfold base_pose; rewrite L; reflexivity.
+Qed.
+
+(* recover after remove for the classic input, no world hypothesis left *)
+Theorem recover_remove_roots (R : rigsQ) (T : trajQ) n :
+  wf2 R -> wf2 T -> one_parent R -> depth_le R n -> (n <= max_depth)%nat -> rigs_nonempty R -> rigs_validQ R ->
+  no_empty_timestamp T -> traj_validQ T -> (forall t d, posed T t d -> mounted R d = false) ->
+  exists T1 T2,
+    remove_spec_inplace max_depth R T = Done T1 /\ recover_spec_inplace max_depth R None T1 = Done T2 /\
+    (forall t r p, is_rig R r = true -> lookup2 t r T = Some p -> exists p2, lookup2 t r T2 = Some p2 /\ MPose.peq p2 p) /\
+    (forall t d p, is_rig R d = false -> lookup2 t d T = Some p -> lookup2 t d T2 = Some p) /\
+    (forall t s p1, lookup2 t s T1 = Some p1 ->
+                    exists y l p2 c, path_up R s l y /\ mounted R y = false /\ lookup2 t y T2 = Some p2 /\
+                                     compose_list (map snd l ++ [p2]) = Some c /\ MPose.peq p1 c) /\
+    (forall t y, mounted R y = true -> lookup2 t y T2 = None).
+Proof.
+  intros WR WT OP DL Le RN RV NE TV UM.
+  pose proof (roots_consistent R T n WR OP DL RV TV UM) as C.
+  destruct (recover_remove_pose R T n _ WR WT OP DL Le RN RV NE C) as (T1 & T2 & E1 & E2 & H1 & H2 & H3 & _ & _).
+  exists T1, T2. split; [exact E1|]. split; [exact E2|]. split; [|split; [|split; [exact H2 | exact H3]]].
+  - intros t r p Rr Lp. apply (H1 t r p Rr); [|assumption]. apply (UM t). unfold posed; congruence.
+  - (* a free sensor: untouched by remove (not a rig, nothing above it) and by recover (not mounted) *)
+    intros t d p Nd Lp.
+    assert (NM : mounted R d = false) by (apply (UM t); unfold posed; congruence).
+    pose proof (remove_done_iter _ _ _ _ _ E1) as I1. pose proof (recover_done_iter _ _ _ _ _ _ _ E2) as I2.
+    assert (L1 : lookup2 t d T1 = Some p).
+    { rewrite (remove_untouched pose compose2 R t d WR Nd max_depth T T1 WT); [assumption | | assumption].
+      intros a (l & NEl & PU). exfalso. inversion PU as [|? r g l' ? M PU']; subst; [congruence|].
+      assert (X : mounted R d = true) by (apply mounted_iff; eauto). congruence. }
+    assert (W1 : wf2 T1) by exact (remove_iter_wf2 pose compose2 R max_depth T T1 WT I1).
+    rewrite (recover_nonmember_kept pose compose2 (reverseQ R) None d t NM max_depth T1 T2 W1); [assumption | | assumption].
+    unfold posed; congruence.
+Qed.
+
+(* recover with a master list, any nesting depth: a chain of masters from a posed device s up to a top-level rig
+   (s and every rig strictly between s and top is named in the master list) gets top recovered with its world
+   pose, and every device of that tree that was posed keeps the world pose implied by top's entry *)
+Theorem recover_masters_chain_pose (R : rigsQ) (T : trajQ) masters world t s l top :
+  wf2 R -> wf2 T -> one_parent R -> rigs_validQ R -> consistent R world T ->
+  path_up R s l top -> mounted R top = false -> (List.length l <= max_depth)%nat ->
+  (forall x, In x (nodes_below pose s l) -> is_master masters x = true) -> posed T t s ->
+  exists T2 p2, recover_spec_inplace max_depth R masters T = Done T2 /\ consistent R world T2 /\
+    lookup2 t top T2 = Some p2 /\ MPose.peq p2 (world t top) /\
+    (forall s' l' p1, path_up R s' l' top -> lookup2 t s' T = Some p1 ->
+                      exists c, compose_list (map snd l' ++ [p2]) = Some c /\ MPose.peq p1 c).
+Proof.
+  intros WR WT OP RV (WV & G & A) PU NT Len HM Ps.
+  destruct (recover_total pose compose2 (reverseQ R) masters max_depth T WT) as [T2 E2].
+  assert (A2 : agrees pose MPose.peq world T2)
+    by exact (@recover_agrees pose MPose.peq MPose.valid compose2 inverse _ _ rg_inverse_cancel R world masters
+                WR G WV RV max_depth T T2 A E2).
+  pose proof (recover_master_chain pose compose2 inverse R masters WR OP max_depth T T2 t s l top WT E2 PU NT HM Ps Len) as Pt.
+  apply posed_iff in Pt. destruct Pt as [p2 L2].
+  exists T2, p2. split; [unfold recover_spec_inplace, MRigs.recover_inplace; fold (reverseQ R); rewrite E2; reflexivity|].
+  split; [exact (conj WV (conj G A2))|]. split; [exact L2|]. split; [apply A2; exact L2|].
+  intros s' l' p1 PU' L1. exists (compose_seq pose compose2 (map snd l' ++ [p2]) p2). split; [apply compose_list_seq|].
+  rewrite (compose_seq_path pose MPose.peq MPose.valid compose2 rg_compose2_valid rg_compose2_assoc l' p2 p2);
+    [|eapply path_valid; eassumption | rewrite (A2 _ _ _ L2); apply WV].
+  rewrite (A _ _ _ L1). rewrite (geom_path pose MPose.peq compose2 R world t G s' l' top PU').
+  apply (@comp_path_proper pose MPose.peq compose2 _ _). symmetry. apply A2. exact L2.
+Qed.
+
+(* the copying variants: deepcopy is the identity on trajectories without empty timestamps *)
+Lemma deepcopy_traj_id {P} (T : MRigs.traj P) : wf T -> no_empty_timestamp T -> deepcopy_traj T = T.
+Proof.
+  unfold deepcopy_traj. induction T as [|[t m] T IH]; intros W NE; cbn; [reflexivity|].
+  unfold wf in W; cbn in W. inversion W as [|? ? NI W']; subst.
+  assert (m <> []) by (apply (NE t); cbn; rewrite Eqb.eqb_refl; reflexivity).
+  destruct m; [congruence|]. cbn. f_equal. apply IH; [assumption|].
+  intros t' m' L. apply (NE t'). cbn. destruct (Eqb.eqb_spec t' t) as [->|N]; [|assumption].
+  exfalso. apply NI. apply lookup_In_keys. congruence.
+Qed.
+
+(* ------------------------------------------------------------------ from "one live master member per rig and
+   timestamp" to a chain of masters.  live = posed or above a posed device. *)
+Definition live (R : rigsQ) (T : trajQ) (t : Z) (x : string) : Prop := posed T t x \/ exists d, anc R x d /\ posed T t d.
+Definition masters_cover (R : rigsQ) (T : trajQ) (t : Z) masters : Prop :=
+  forall r, (exists d, anc R r d /\ posed T t d) ->
+            exists m g, member R r m g /\ is_master masters m = true /\ live R T t m.
+
+Lemma anc_is_rig (R : rigsQ) x d : anc R x d -> is_rig R x = true.
+Proof.
+  intros (l & NE & PU). revert NE. induction PU as [d|d r g l top M PU IH]; [congruence|]. intros _.
+  destruct l as [|e l]; [inversion PU; subst; eapply member_is_rig; eassumption | apply IH; discriminate].
+Qed.
+
+Lemma master_chain_exists (R : rigsQ) (T : trajQ) t masters n :
+  depth_le R n -> masters_cover R T t masters -> forall fuel x l0 y,
+  path_up R x l0 y -> (n <= List.length l0 + fuel)%nat -> (exists d, anc R x d /\ posed T t d) ->
+  exists s l, path_up R s l x /\ l <> [] /\ posed T t s /\ (forall z, In z (nodes_below pose s l) -> is_master masters z = true).
+Proof.
+  intros DL MC. induction fuel as [|fuel IH]; intros x l0 y PU0 Le Lx.
+  - exfalso. destruct Lx as (d & A & _). specialize (DL x l0 y (anc_is_rig R x d A) PU0). lia.
+  - destruct (MC x Lx) as (m & g & M & IM & [Pm|Lm]).
+    + exists m, [(x, g)]. split; [econstructor; [eassumption | constructor]|]. split; [discriminate|]. split; [assumption|].
+      intros z [<- | []]. assumption.
+    + destruct (IH m ((x, g) :: l0) y (path_cons pose R m x g l0 y M PU0)) as (s & l & PU & NE & Ps & HM); [cbn; lia | assumption|].
+      exists s, (l ++ [(x, g)]). split; [eapply path_up_snoc; eassumption|]. split; [destruct l; discriminate|]. split; [assumption|].
+      intros z Iz. rewrite nodes_below_snoc in Iz.
+      assert (D : In z (nodes_below pose s l) \/ z = m).
+      { clear - PU Iz NE. unfold nodes_below. revert NE Iz. induction PU as [d|d r g0 l top M0 PU IH]; [congruence|]. intros _ Iz.
+        cbn [map fst] in *. change (removelast (d :: r :: map fst l)) with (d :: removelast (r :: map fst l)).
+        destruct Iz as [<- | Iz]; [left; left; reflexivity|].
+        destruct l as [|e l].
+        - inversion PU; subst. cbn in Iz. destruct Iz as [<- | []]. right; reflexivity.
+        - destruct (IH ltac:(discriminate) Iz) as [I|E]; [left; right; exact I | right; exact E]. }
+      destruct D as [I | ->]; [apply HM; assumption | assumption].
+Qed.
+
+(* the quantifier's formulation: masters hit a live member of every rig that has something posed below it; then every
+   top-level rig with something posed below it is recovered with its world pose *)
+Theorem recover_masters_cover_pose (R : rigsQ) (T : trajQ) masters world t top n :
+  wf2 R -> wf2 T -> one_parent R -> depth_le R n -> (n <= max_depth)%nat -> rigs_validQ R -> consistent R world T ->
+  masters_cover R T t masters -> mounted R top = false -> (exists d, anc R top d /\ posed T t d) ->
+  exists T2 p2, recover_spec_inplace max_depth R masters T = Done T2 /\ consistent R world T2 /\
+    lookup2 t top T2 = Some p2 /\ MPose.peq p2 (world t top) /\
+    (forall s' l' p1, path_up R s' l' top -> lookup2 t s' T = Some p1 ->
+                      exists c, compose_list (map snd l' ++ [p2]) = Some c /\ MPose.peq p1 c).
+Proof.
+  intros WR WT OP DL Le RV C MC NT Lt.
+  destruct (master_chain_exists R T t masters n DL MC n top [] top (path_nil pose R top)) as (s & l & PU & NE & Ps & HM); [cbn; lia | assumption|].
+  apply (recover_masters_chain_pose R T masters world t s l top WR WT OP RV C PU NT); auto.
+  (* the chain is no longer than the nesting depth *)
+  inversion PU as [|? r1 g1 l' ? M1 PU']; subst; [congruence|]. cbn.
+  pose proof (DL r1 l' top (member_is_rig pose R r1 s g1 M1) PU'). lia.
 Qed.
